@@ -67,7 +67,9 @@ def _one(job):
         if not apply_edit(d, w):
             return {"id": w["id"], "status": "context-missing"}, None
         c, err = run_on(d, prop)
-        fired = [o for o in c.obls if o["verdict"] == "violation"]
+        from .report import load_known
+        knownkeys = {k.get("key") for k in load_known() if k.get("status") == "known"}
+        fired = [o for o in c.obls if o["verdict"] == "violation" and o.get("key") not in knownkeys]
         hit = [o for o in fired if o["rule"] == w["rule"] or o["rule"] in w.get("also", ())]
         if err and not hit:
             return {"id": w["id"], "status": "analysis-" + err[:200]}, w["id"] + " (" + err[:80] + ")"
